@@ -114,6 +114,7 @@ func strs(v any) string {
 	}
 	return strings.Join(out, " ")
 }
+
 // rangeTokens writes a list of ranges; the six private blocks in a row are written as the keyword private_ranges
 func rangeTokens(v any, prefix string) []string {
 	priv := []string{"192.168.0.0/16", "172.16.0.0/12", "10.0.0.0/8", "127.0.0.1/8", "fd00::/8", "::1"}
